@@ -203,6 +203,7 @@ func addProtoFunctions(fm template.FuncMap, protoFile *protogen.File, names spec
 	fm["getImportPrefix"] = getImportPrefix(protoFile, goPackageForFile)
 	fm["mapFieldGoType"] = mapFieldGoType(protoFile, goPackageForFile)
 	fm["hasRequiredFields"] = hasRequiredFields(protoFile)
+	fm["hasImplicitFloatFields"] = hasImplicitFloatFields(protoFile)
 	fm["getSafeFieldName"] = getSafeFieldName(names)
 	return fm
 }
@@ -460,6 +461,42 @@ func hasRequiredFields(protoFile *protogen.File) func(*protogen.Message) bool {
 			}
 		}
 		return false
+	}
+}
+
+// isImplicitFloatField returns true if f is a singular float or double field without explicit presence
+// (a proto3 field that is neither optional nor part of a oneof).
+//
+// Such a field is "set" when its bit pattern is not all zeros, so -0.0 must be written.
+func isImplicitFloatField(f *protogen.Field) bool {
+	k := f.Desc.Kind()
+	return (k == protoreflect.FloatKind || k == protoreflect.DoubleKind) &&
+		!f.Desc.IsList() && !f.Desc.IsMap() && f.Desc.ContainingOneof() == nil &&
+		f.Desc.Syntax() == protoreflect.Proto3
+}
+
+// hasImplicitFloatFields returns true if at least one field in the specified message is a float/double
+// field without explicit presence, for which the generated code needs the "math" package.
+//
+// If m is nil, this function returns true if *any* message in the Protobuf file has such a field.
+func hasImplicitFloatFields(protoFile *protogen.File) func(*protogen.Message) bool {
+	msgHas := func(m *protogen.Message) bool {
+		for _, f := range m.Fields {
+			if isImplicitFloatField(f) {
+				return true
+			}
+		}
+		return false
+	}
+	anyMessage := false
+	for _, m := range allMessages(protoFile)() {
+		anyMessage = anyMessage || msgHas(m)
+	}
+	return func(m *protogen.Message) bool {
+		if m == nil {
+			return anyMessage
+		}
+		return msgHas(m)
 	}
 }
 
